@@ -103,9 +103,12 @@ fn judge(cc: &Covercrypt, fxx: &Fx, base: &Base, mutant: &[u8], op: &str, st: &m
             return;
         }
     };
-    if x == base.enc {
-        st.bump("mutants_equivalent_encoding");
-        return;
+    let equal = x == base.enc;
+    if equal {
+        // different bytes, same object: the serialized form itself is malleable if any key still
+        // opens it ("changing any byte of its serialized form makes decapsulation return no
+        // secret"); counted separately, judged by the same oracle
+        st.bump("mutants_decoding_to_the_original_object");
     }
     st.bump("mutants_used");
     st.shapes.insert(fnv(format!("{}|{}", base.name, op.split('#').next().unwrap_or(op)).as_bytes()));
@@ -118,7 +121,11 @@ fn judge(cc: &Covercrypt, fxx: &Fx, base: &Base, mutant: &[u8], op: &str, st: &m
                 let same = real::secret_bytes(&s) == base.secret;
                 st.findings.push(Finding {
                     prop: "C07".into(),
-                    signature: format!("C07:modified-encapsulation-opens:{}:{}", base.name, op.split('#').next().unwrap_or(op)),
+                    signature: if equal {
+                        format!("C07:modified-bytes-decode-to-the-original-and-open:{}", op.split('#').next().unwrap_or(op))
+                    } else {
+                        format!("C07:modified-encapsulation-opens:{}:{}", base.name, op.split('#').next().unwrap_or(op))
+                    },
                     detail: format!("{} {op}: key {label} obtained {} from a modified encapsulation", base.name, if same { "the original secret" } else { "a different secret" }),
                     replay: json!({"monitor": "c07", "base": base.name, "op": op, "mutant": wire::hex(mutant), "key": label}),
                 });
